@@ -139,7 +139,7 @@ def run(ctx):
     ok = ctx.build()
     quick = ctx.quick()
     n = 4000 if quick else 300000
-    n_model = 700 if quick else 20000
+    n_model = 700 if quick else 8000
     fails = []
     model_cases = []
     file_cases = []
